@@ -224,47 +224,80 @@ def match(result, tree, reader, check_attrs=True, attr_filter=None):
     if attrs is not None and len(attrs) != len(paths):
         return ("attr_mispaired", {"paths": len(paths), "attribute_dicts": len(attrs)})
     n = len(exp)
-    # pair expected entries with returned ones: by id where available, else by geometry
+    # candidates: by id where the id is present on both sides, else by geometry (duplicates are
+    # interchangeable); then look for a pairing that keeps the order within every parent
     got_ids = {}
-    if attrs is not None:
+    use_ids = attrs is not None and (attr_filter is None or "id" in attr_filter)
+    if use_ids:
         for j, a in enumerate(attrs):
             v = a.get("id") if hasattr(a, "get") else None
-            if v is not None and v not in got_ids:
-                got_ids[v] = j
-    pairing = [None] * n
-    used = set()
+            if v is not None:
+                got_ids.setdefault(v, []).append(j)
+    cand = []
     for i, (e, key) in enumerate(exp):
-        if e.attrs is not None and "id" in e.attrs and attrs is not None and (attr_filter is None or "id" in attr_filter):
-            j = got_ids.get(e.attrs["id"])
-            if j is not None and j not in used:
-                pairing[i] = j
-                used.add(j)
-    for i, (e, key) in enumerate(exp):
-        if pairing[i] is None:
-            # same position first (keeps order diagnostics honest), then any unused equal geometry
-            cand = [i] + [j for j in range(n) if j != i]
-            for j in cand:
-                if j not in used and path_equal(e.path, paths[j]):
-                    pairing[i] = j
-                    used.add(j)
-                    break
-    for i, (e, key) in enumerate(exp):
-        j = pairing[i]
-        if j is None:
-            return ("geometry", {"expected": path_repr(e.path), "got_at_same_index": path_repr(paths[i])})
-        if not path_equal(e.path, paths[j]):
-            # paired by id but geometry differs: is the geometry somewhere else?
-            if any(path_equal(e.path, q) for q in paths):
-                return ("attr_mispaired", {"id": e.attrs.get("id"), "expected": path_repr(e.path),
-                                           "got": path_repr(paths[j])})
-            return ("geometry", {"expected": path_repr(e.path), "got": path_repr(paths[j])})
-    # order: entries with the same parent keep their relative order; a flat tree keeps total order
-    last = {}
-    for i, (e, key) in enumerate(exp):
-        j = pairing[i]
-        if key in last and j < last[key]:
-            return ("reordered", {"expected_order": [x[0].pid for x in exp], "got_positions": pairing})
-        last[key] = j
+        c = None
+        if use_ids and e.attrs is not None and "id" in e.attrs and e.attrs["id"] in got_ids:
+            c = [j for j in got_ids[e.attrs["id"]]]
+            good = [j for j in c if path_equal(e.path, paths[j])]
+            if not good:
+                if any(path_equal(e.path, q) for q in paths):
+                    return ("attr_mispaired", {"id": e.attrs.get("id"), "expected": path_repr(e.path),
+                                               "got": path_repr(paths[c[0]])})
+                return ("geometry", {"expected": path_repr(e.path), "got": path_repr(paths[c[0]])})
+            c = good
+        else:
+            c = [j for j in range(n) if path_equal(e.path, paths[j])]
+            if not c:
+                return ("geometry", {"expected": path_repr(e.path),
+                                     "got_at_same_index": path_repr(paths[i]) if i < len(paths) else None})
+        cand.append(c)
+
+    def search(ordered):
+        used = [False] * n
+        out = [None] * n
+        last = {}
+        budget = [20000]
+
+        def rec(i):
+            if i == n:
+                return True
+            budget[0] -= 1
+            if budget[0] < 0:
+                raise OverflowError
+            key = exp[i][1]
+            lo = last.get(key, -1) if ordered else -1
+            for j in cand[i]:
+                if used[j] or j <= lo:
+                    continue
+                used[j] = True
+                out[i] = j
+                prev = last.get(key)
+                last[key] = j
+                if rec(i + 1):
+                    return True
+                used[j] = False
+                if prev is None:
+                    last.pop(key, None)
+                else:
+                    last[key] = prev
+            return False
+        try:
+            return out if rec(0) else None
+        except OverflowError:
+            return "inconclusive"
+
+    pairing = search(True)
+    if pairing == "inconclusive":
+        return None
+    if pairing is None:
+        loose = search(False)
+        if loose is None:
+            return ("geometry", {"note": "no one-to-one pairing of written and returned paths",
+                                 "expected": [path_repr(e.path) for e, _ in exp][:6],
+                                 "got": [path_repr(q) for q in paths][:6]})
+        if loose == "inconclusive":
+            return None
+        return ("reordered", {"expected_order": [x[0].pid for x in exp], "got_positions": loose})
     if check_attrs and attrs is not None:
         for i, (e, key) in enumerate(exp):
             if not e.attrs:
@@ -995,7 +1028,7 @@ def replay(hist, keep_log=False):
 
 FILE_POOL = ["a.svg", "b.svg", "out/c.svg", "out/deep/er/d.svg", ROOT + "/tmp/e.svg", "pic.SVG", "noext",
              "sub dir/f g.svg", "out/c.xml"]
-GROUP_POOL = [["g1"], ["g1", "g2"], ["g3"], ["g1", "g4"], ["g3", "g5", "g6"]]
+GROUP_POOL = [["g1"], ["g1", "g2"], ["g3"], ["g1", "g4"], ["g3", "g5", "g6"], ["g10"], ["g1", "g22"], ["g"]]
 VAL_SIMPLE = ["red", "#00ff00", "none", "1.5", "blue", "0.25", "a b", "x1"]
 VAL_NASTY = ["x&y", "<tag>", 'say "hi"', "it's", "ünïcödé ☃", "a  b", " lead", "trail ", "&amp;",
              "]]>", "100%", "url(#g)", "\U0001F600"]
@@ -1037,6 +1070,7 @@ class Gen:
         self.t0 = 1.7e9 + c.randint(0, 10 ** 6) + c.choice([0.0, 0.5, 0.123456])
         self.short_step = c.choice([1, 3, 7, 100])
         self.next_pid = 1
+        self.recent = []
         self.next_doc = 0
         self.nfaults = 0
         self.maxfaults = c.randint(1, 3)
@@ -1103,6 +1137,9 @@ class Gen:
             end = s[-1]
         pid = self.next_pid
         self.next_pid += 1
+        if self.recent and r.random() < 0.12:
+            segs = copy.deepcopy(r.choice(self.recent))      # the same geometry again (another pid)
+        self.recent = (self.recent + [segs])[-6:]
         return {"pid": pid, "segs": segs}
 
     def attrs(self, r, pid):
@@ -1437,7 +1474,7 @@ ASSUMPTIONS = [
     "locale encoding fixed to UTF-8 (CPython's default in this sandbox)",
     "order oracle: paths with the same parent element keep their relative order (total order for flat documents); cross-group order is not constrained",
     "no transforms, nodes or text are written (svg2paths ignores transforms and turns circles into paths by design)",
-    "attribute keys are XML names without underscores, values are strings without control characters",
+    "attribute keys are XML names without underscores, values are non-empty strings without control characters (svgwrite treats an empty value as unset and rewrites '_' to '-')",
 ]
 EXPECTED_PROBES = [
     "overwrite_of_existing_file", "write_into_two_or_more_missing_directory_levels", "same_name_written_by_two_writers",
